@@ -58,7 +58,8 @@ CLAIMED = {
               'READER-STATE, FINALIZE-RESET, SCAN-TO-ZERO (a backward member scan may only succeed at position 0); GUARD-COMPARE also '
               'requires comparisons with measured quantities to be two-sided; READ-ERR-LATCH (XZReader is not run again after an '
               'error: a retry cannot resume behind a failed block check); UNIT-EXACT (an LZIPReaderMT worker checks that the member it '
-              'decoded fills its unit: nothing inside a unit is trailing data).',
+              'decoded fills its unit: nothing inside a unit is trailing data), TAIL-PREFIX (the bytes behind the last LZIP member are '
+              'compared with a prefix of the magic as long as the bytes that are there).',
               'that CRC/SHA detect a given corruption, LZMA-level structural errors inside the range-coded payload.'),
     'C05': _c('static: error-propagation taint + I/O count classification at every Read::read / Write::write site',
               'ERR-SWALLOW (whole crate) and IO-COUNT (W1 dropped write count, W2 transforming writer returning a partial count, '
@@ -116,7 +117,8 @@ CLAIMED = {
               'iteration that copies nothing still reaches the dispatch call; the room left in the unit is measured inside the loop), '
               'SCAN-PROGRESS (see C06), ERR-STATE-ENTRY (write, flush and finish of the MT writers test the error state before '
               'any exit that can carry Ok), ERRCHK-BEFORE-HANDOUT (a reader coordinator looks at the error store before its '
-              'reorder buffer in every round and hands nothing out in the error state).',
+              'reorder buffer in every round and hands nothing out in the error state), ERR-RETURN-STICKY (every Err a reader '
+              'coordinator returns leaves the error state behind).',
               'progress of back-pressure loops, value relations between sequence counters.'),
     'C10': _c('static: lock-set analysis, condvar predicate discipline, call-graph effects',
               'CV-LOCK, CV-NOTIFY (every predicate write is followed by a notify on all paths), LOCK-SCOPE, DROP-CLOSE, SPAWN-BOUND '
@@ -163,7 +165,8 @@ CLAIMED = {
               'GUARD-FIELD-WRITERS, ASM-CLAMP, MOVE-KEEPS-HISTORY (the window move offset is read_pos + c - keep_size_before '
               'with c <= 1, rounded DOWN by the alignment mask: the history the unchecked readers reach into is kept), '
               'WRITE-ERR-LATCH (a writer whose range encoder writes straight into the sink is not run again after a sink error: '
-              'the interrupted encoder would reach the unchecked match extension with a start in front of the window).',
+              'the interrupted encoder would reach the unchecked match extension with a start in front of the window), '
+              'MODE-RESERVE-FLOOR (LZMAEncoder::new hands the LZ encoder max(caller\'s extra size, the mode\'s EXTRA_SIZE_BEFORE)).',
               'the non-local precondition of extend_match (read_pos + current_len >= distance) which rests on match-finder/window '
               'invariants.'),
     'C16': _c('static: who-reads-how classification of every source access in the single-stream decoders',
